@@ -59,6 +59,8 @@ theorem static_eq_dynamic (loc : Locator) (modname other : Str) (m : Module)
   simp only
   have hs : setAll (bindsTop modname other m.body) [] = bindsTop modname other m.body := by
     rw [setAll_of_nodup (by simpa using h.topDistinct)]; simp
+  rw [inFragment_noAlias false m.body h.shape]
+  simp only [applyAliases, List.foldl_nil]
   rw [hs, entries_eq_topLevel loc modname other h.otherModule m.body h.shape h.classDistinct]
 
 /-- as sets of identifiers with docstrings -/
@@ -106,5 +108,18 @@ def unexecuted : Module :=
 example : ¬ InFragment "mod".toList "o".toList unexecuted := by decide
 example : pairs (visitModule (fun _ => none) unexecuted) ≠
     dynamicCollect (execModule "mod".toList "o".toList unexecuted) := by decide
+
+/-- a second name for a class (`Alias = C`): the static collector keeps the `def`/`class` statements only, the dynamic
+    walk goes by the KEYS of the module dict and reports the class and its methods under both names -/
+def aliased : Module :=
+  { doc := none,
+    body := .cls "C".toList [] (some ⟨"c".toList, 2, 2⟩) (.func false "m".toList [] (some ⟨"d".toList, 4, 4⟩) .done .done) <|
+            .alias "Alias".toList "C".toList .done }
+
+example : ¬ InFragment "mod".toList "o".toList aliased := by decide
+example : pairs (visitModule (fun _ => none) aliased) = [("C".toList, some "c".toList), ("C.m".toList, some "d".toList)] := by decide
+example : dynamicCollect (execModule "mod".toList "o".toList aliased) =
+    [("C".toList, some "c".toList), ("C.m".toList, some "d".toList),
+     ("Alias".toList, some "c".toList), ("Alias.m".toList, some "d".toList)] := by decide
 
 end Xdoc.C16
